@@ -86,7 +86,8 @@ def u_b_dominates(ctx):
 # ---------------------------------------------------------------------------------------------------
 # distance-to-preference-vector transformations == their geometric definition (mode B, all real coordinates)
 from pyvc import lemma
-TRANS = ["pybrops/breed/prot/sel/prob/trans.py:trans_ndpt_to_vec_dist", "pybrops/breed/prot/sel/transfn.py:trans_ndpt_to_vec_dist"]
+TRANS = ["pybrops/breed/prot/sel/prob/trans.py:trans_ndpt_to_vec_dist", "pybrops/breed/prot/sel/transfn.py:trans_ndpt_to_vec_dist",
+         "pybrops/core/util/trans.py:trans_ndpt_pseudo_dist"]
 
 
 @unit(P, "B[trans_ndpt_to_vec_dist == distance of the range-normalised weighted point to the preference ray]", "B", bounded=True,
@@ -99,8 +100,8 @@ def u_b_vecdist(ctx):
     def body(e, shape, tag):
         import importlib
         npt, nobj, which = shape[:3]
-        mod = importlib.import_module("pybrops.breed.prot.sel.prob.trans" if which == 0 else "pybrops.breed.prot.sel.transfn")
-        f = mod.trans_ndpt_to_vec_dist
+        mod = importlib.import_module(["pybrops.breed.prot.sel.prob.trans", "pybrops.breed.prot.sel.transfn", "pybrops.core.util.trans"][which])
+        f = mod.trans_ndpt_to_vec_dist if which < 2 else mod.trans_ndpt_pseudo_dist      # the third implementation (same definition)
         pts = barr.fresh("f", (npt, nobj), "float64")
         if nobj == 1:
             wt = barr.fresh("w", (nobj,), "float64")
@@ -108,6 +109,9 @@ def u_b_vecdist(ctx):
             for k in range(nobj):
                 e.assume(R(wt[k]) != 0)
             e.assume(sum((R(vec[k]) * R(vec[k]) for k in range(nobj)), z3.RealVal(0)) > 0)
+            if which == 2:
+                for k in range(nobj):
+                    e.assume(R(vec[k]) >= 0)          # its documented precondition: non-negative pseudo-weights
         else:
             # two objectives: concrete sign weights and preference vectors keep the queries polynomial of low degree
             wt = numpy.array(shape[3], dtype=float)
@@ -134,9 +138,10 @@ def u_b_vecdist(ctx):
                     z3.And(R(d[i]) >= 0, R(d[i]) * R(d[i]) == sq), timeout_ms=20000)
         e.prove(tag + ":front-not-modified", all(_t(pts[i, k]).eq(snap[i][k]) for i in range(npt) for k in range(nobj)))
         return "ok"
-    shapes = [(1, 1, 0), (2, 1, 0), (2, 1, 1), (2, 2, 0, (1, -1), (1, 1)), (2, 2, 1, (-1, -1), (1, 1))]
+    shapes = [(1, 1, 0), (2, 1, 0), (2, 1, 1), (2, 2, 0, (1, -1), (1, 1)), (2, 2, 1, (-1, -1), (1, 1)),
+              (2, 1, 2), (2, 2, 2, (-1, 1), (1, 1)), (2, 2, 2, (-1, -1), (1, 1))]
     if ctx.tier == "thorough":
-        shapes += [(3, 1, 1), (2, 2, 1, (-1, -1), (2, 1)), (3, 2, 0, (1, 1), (1, 3)), (3, 2, 1, (1, -1), (1, 1))]
+        shapes += [(3, 1, 1), (3, 2, 2, (1, -1), (1, 1)), (2, 2, 1, (-1, -1), (2, 1)), (3, 2, 0, (1, 1), (1, 3)), (3, 2, 1, (1, -1), (1, 1))]
     modeb.run_shapes(ctx, "vecdist", shapes, body, max_paths=5000)
 
 
